@@ -134,15 +134,20 @@ def get_division_candidate(
 
     """
     # Look for exponent candidates among divisors
-    for idx2 in reversed(numpy.lexsort(x2.exponents.T)):
+    order2 = numpy.lexsort(x2.exponents.T)
+    ranks2 = numpy.argsort(order2)
+    for idx2 in reversed(order2):
         exponent2 = x2.exponents[idx2]
 
         # Include coefficients where idx2 is non-zero and any potential
         # candidates that is a better fit has coefficient zero. Exponent needs
-        # to be the biggest one around.
+        # to be the biggest one around, in the same (lexicographic) order the
+        # candidates are visited in: with a component-wise comparison several
+        # incomparable terms would all count as leading and the subtraction
+        # steps could undo each other forever.
         include2 = numpy.ones(x2.shape, dtype=bool)
-        for idx, exponent in enumerate(x2.exponents):
-            if numpy.all(exponent2 <= exponent):
+        for idx in range(len(x2.exponents)):
+            if ranks2[idx2] <= ranks2[idx]:
                 include2 &= (x2.coefficients[idx] == 0) ^ (idx == idx2)
         if not numpy.any(include2):
             continue
